@@ -1,4 +1,14 @@
 CHECKS = {
+ "C16": {
+  "text": "Generated IMU streams (B 1..4, F 1..200, dt in [1e-4,1], rates up to |w dt| = 2, with / without supplied rotations, gravity 0 / "
+          "non-zero, initial states, both dtypes, input ranks) against a float64 sequential recursion written from the docstring with the "
+          "harness's own quaternion algebra; EVERY F in 1..200 and ALL compositions of F <= 6 (quick) / 9 (thorough) enumerated for the "
+          "chunking clause (reset=False, carry through buffers or init_state); rank equivalence; covariance symmetric PSD and equal "
+          "between feedings. Complete for the enumerated F / compositions, exploration otherwise.",
+  "design_ref": "DESIGN.md section 3, C16",
+  "note": "The gravity vector is read from the module buffer as stored (float32-rounded); without a supplied rotation either the pre- or post-increment rotation reading is accepted.",
+  "technique": "property-based testing: Hypothesis generators + exhaustive enumeration of frame counts / chunkings against a sequential reference model",
+ },
  "C17": {
   "text": "Generated correspondence sets (N 3..200; generic, planar, collinear, duplicated, thin-plane, needle; noise 0..0.5 incl. reflection-"
           "prone; rotations over all of SO(3) incl. pi; scales 0.1..10; batches; both dtypes) against Horn's quaternion optimum and the "
